@@ -151,4 +151,133 @@ Proof.
   rewrite (decrypt_encrypt aesE aesD AES keys (rp_payload pkt) e Hiv Hp S'). cbn [res_eqb]. apply bytes_eqb_refl.
 Qed.
 
+Lemma mon_send keys s plain seq msgno chid chtype a b c d tampered e f g :
+  wf_op (OpSend keys s plain seq msgno chid chtype a b c d tampered e f g) ->
+  mon_op (model_op aesE aesD md5 x25519 (OpSend keys s plain seq msgno chid chtype a b c d tampered e f g)) = true
+  \/ md5_collision md5.
+Proof.
+  intros (Hiv & Hp & Hno & Hch & Ht). cbn [model_op mon_op andb].
+  destruct (EncryptPayload aesE plain keys) as [enc|] eqn:E; [|left; reflexivity].
+  assert (K : exists sc, NewSessionCrypto keys = Ok sc).
+  { unfold EncryptPayload, with_keys in E. destruct (NewSessionCrypto keys) as [sc|]; [eexists; reflexivity|discriminate]. }
+  destruct K as [sc K].
+  unfold honest_packet. cbn [res_get].
+  set (h0 := SendPkt [] seq msgno chid chtype enc).
+  rewrite (SendMsgKey_usable aesE md5 keys sc h0 K). cbn [res_get].
+  set (k := hexMD5String (md5 (msg_key_preimage aesE (send_sign_bytes h0) sc))).
+  set (h := SendPkt k seq msgno chid chtype enc).
+  assert (MK : SendMsgKey aesE md5 h keys = Ok k) by (rewrite (SendMsgKey_usable aesE md5 keys sc h K); reflexivity).
+  (* honest packet *)
+  rewrite (validate_honest aesE md5 keys h k MK eq_refl). cbn [N.eqb andb].
+  assert (A0 : sess_consistent keys s = true -> decryptSendPacketForSession aesE aesD md5 s h = Ok plain).
+  { intro C. rewrite (adapter_send_eq keys sc s h K C), (validate_honest aesE md5 keys h k MK eq_refl).
+    cbn [sp_payload h]. exact (decrypt_encrypt aesE aesD AES keys plain enc Hiv Hp E). }
+  assert (G0 : negb (sess_consistent keys s) || res_eqb bytes_eqb (decryptSendPacketForSession aesE aesD md5 s h) (Ok plain) = true).
+  { destruct (sess_consistent keys s) eqn:C; [|reflexivity]. rewrite (A0 eq_refl). cbn [negb orb res_eqb]. apply bytes_eqb_refl. }
+  rewrite G0. cbn [andb].
+  (* rejected packets *)
+  assert (REJ : ValidateSendPacket aesE md5 tampered keys = E_MsgKeyMismatch ->
+                negb (ValidateSendPacket aesE md5 tampered keys =? 0)
+                && (negb (sess_consistent keys s) || negb (is_ok (decryptSendPacketForSession aesE aesD md5 s tampered))) = true).
+  { intro V. rewrite V. cbn [N.eqb negb andb]. change (E_MsgKeyMismatch =? 0) with false. cbn [negb andb].
+    destruct (sess_consistent keys s) eqn:C; [|reflexivity].
+    rewrite (adapter_send_eq keys sc s tampered K C), V. reflexivity. }
+  assert (Bh : all_bytes (send_sign_bytes h) = true).
+  { apply sign_bytes_bytes. repeat split; try assumption. cbn [sp_payload h].
+    unfold EncryptPayload, with_keys in E. rewrite K in E. cbn [EncryptPayloadWithCrypto] in E. inversion E.
+    apply b64_encode_all_bytes. }
+  assert (Bt : all_bytes (send_sign_bytes tampered) = true) by (apply sign_bytes_bytes; exact Ht).
+  destruct (bytes_eqb (sp_msgkey tampered) k) eqn:KS;
+    destruct (bytes_eqb (send_sign_bytes tampered) (send_sign_bytes h)) eqn:SS; cbn [andb orb negb].
+  - (* nothing covered changed *)
+    apply bytes_eqb_eq in KS, SS.
+    destruct ((sp_seq tampered =? seq) && bytes_eqb (sp_msgno tampered) msgno && bytes_eqb (sp_chid tampered) chid
+              && (sp_chtype tampered =? chtype) && bytes_eqb (sp_payload tampered) enc) eqn:U; [|left; reflexivity].
+    repeat (apply andb_true_iff in U; let U2 := fresh "U" in destruct U as [U U2]).
+    apply N.eqb_eq in U, U1. apply bytes_eqb_eq in U0, U2, U3.
+    assert (T : tampered = h).
+    { destruct tampered as [tk ts tn tc tt tp]. cbn in *. subst. reflexivity. }
+    rewrite T. rewrite (validate_honest aesE md5 keys h k MK eq_refl). cbn [N.eqb andb]. left. exact G0.
+  - (* covered bytes altered under the same key *)
+    apply bytes_eqb_eq in KS.
+    assert (N : send_sign_bytes tampered <> send_sign_bytes h).
+    { intro Q. rewrite Q, bytes_eqb_refl in SS. discriminate. }
+    destruct (tamper_covered aesE aesD md5 AES MD5 keys h tampered k Hiv Bh Bt MK KS N) as [V|COL]; [|right; exact COL].
+    left. exact (REJ V).
+  - (* message key altered *)
+    apply bytes_eqb_eq in SS.
+    assert (N : sp_msgkey tampered <> k).
+    { intro Q. rewrite Q, bytes_eqb_refl in KS. discriminate. }
+    left. exact (REJ (tamper_key aesE md5 keys h tampered k MK SS N)).
+  - left. reflexivity.
+Qed.
+
+Theorem mon_model_op o : wf_op o ->
+  mon_op (model_op aesE aesD md5 x25519 o) = true \/ md5_collision md5.
+Proof.
+  destruct o; intro W.
+  - left. apply mon_neg.
+  - left. apply mon_enc. exact W.
+  - left. reflexivity.
+  - apply mon_send. exact W.
+  - left. apply mon_recv. exact W.
+Qed.
+
+(* c25_model_satisfies_monitor *)
+Theorem model_satisfies_monitor ops tE tD tM tDH : Forall wf_op ops ->
+  C25_monitor (C25Case (map (model_op aesE aesD md5 x25519) ops) tE tD tM tDH) = 0 \/ md5_collision md5.
+Proof.
+  intro W. unfold C25_monitor. cbn [c25_ops].
+  induction W as [|o ops Wo _ IH]; [left; reflexivity|].
+  cbn [map forallb].
+  destruct (mon_model_op o Wo) as [M|COL]; [|right; exact COL]. rewrite M. cbn [andb]. exact IH.
+Qed.
+
 End Monitor.
+
+(* ---- sanity of the correspondence predicate: a case whose observations are the model's own,
+   evaluated with the case's oracle tables as primitives, is never a mismatch ------------------- *)
+
+Lemma obs_eqb_refl o : obs_eqb o o = true.
+Proof.
+  assert (B : forall r : res bytes, res_eqb bytes_eqb r r = true) by (intro r; apply res_eqb_refl; apply bytes_eqb_refl).
+  destruct o; cbn [obs_eqb]; rewrite ?B, ?N.eqb_refl, ?bytes_eqb_refl; cbn [andb]; try reflexivity.
+  - rewrite !res_eqb_refl; [reflexivity|apply keys_eqb_refl|].
+    intros [k b]. unfold pair_eqb. cbn [fst snd]. rewrite keys_eqb_refl, bytes_eqb_refl. reflexivity.
+  - rewrite res_eqb_refl; [reflexivity|].
+    intros [a b]. unfold pair_eqb. cbn [fst snd]. rewrite !bytes_eqb_refl. reflexivity.
+Qed.
+
+Lemma model_op_idem aesE aesD md5 dh o :
+  model_op aesE aesD md5 dh (model_op aesE aesD md5 dh o) = model_op aesE aesD md5 dh o.
+Proof. destruct o; reflexivity. Qed.
+
+Theorem model_no_mismatch ops tE tD tM tDH :
+  let aesE := lookup_block tE in
+  let aesD := lookup_block tD in
+  let md5 := fun m => lookup1 tM m [] in
+  let dh := fun a p => lookup2 tDH a p None in
+  C25_mismatch (C25Case (map (model_op aesE aesD md5 dh) ops) tE tD tM tDH) = false.
+Proof.
+  cbv zeta. unfold C25_mismatch. cbn [c25_ops c25_tabE c25_tabD c25_tabMD5 c25_tabDH].
+  apply negb_false_iff. apply forallb_forall. intros o Ho. apply in_map_iff in Ho.
+  destruct Ho as (o' & <- & _). rewrite model_op_idem. apply obs_eqb_refl.
+Qed.
+
+
+(* ---- the assumptions are satisfiable ---------------------------------------------------------- *)
+
+Lemma toy_primitives_ok :
+  aes_ok (fun _ b => rev b) (fun _ b => rev b)
+  /\ md5_ok (fun _ => repeat 7 16)
+  /\ dh_ok (fun _ _ => Some (repeat 9 32)).
+Proof.
+  split; [|split].
+  - split.
+    + intros k b _. apply rev_involutive.
+    + intros k b [L B]. split; [rewrite rev_length; exact L|rewrite all_bytes_rev; exact B].
+  - intro m. split; reflexivity.
+  - split.
+    + intros x y pa pb _ _. reflexivity.
+    + intros x p r H. inversion H. split; reflexivity.
+Qed.
